@@ -63,6 +63,44 @@ def contract_of(lines):
     return split_clauses(req), split_clauses(ens)
 
 
+def spec_defs(text):
+    """{name: normalised definition text} of every `spec fn NAME` with a body in a template"""
+    out = {}
+    for m in re.finditer(r'\bspec fn (\w+)', text):
+        k = text.find('{', m.end())
+        semi = text.find(';', m.end())
+        if k < 0 or (0 <= semi < k):
+            continue        # uninterp / declaration only
+        depth, j = 0, k
+        while j < len(text):
+            if text[j] == '{':
+                depth += 1
+            elif text[j] == '}':
+                depth -= 1
+                if depth == 0:
+                    break
+            j += 1
+        body = text[m.start():j + 1]
+        out.setdefault(m.group(1), re.sub(r'\s+', '', re.sub(r'//.*', '', body)))
+    return out
+
+
+def compare_spec_fns(clauses, imp_defs, exp_defs, what):
+    """every spec function mentioned (transitively) by imported clauses and defined in BOTH units must have the same definition"""
+    problems, seen = [], set()
+    todo = set(re.findall(r'\b[a-z_]\w*\b', ' '.join(clauses)))
+    while todo:
+        n = todo.pop()
+        if n in seen:
+            continue
+        seen.add(n)
+        if n in imp_defs and n in exp_defs:
+            if imp_defs[n] != exp_defs[n]:
+                problems.append('%s: spec fn `%s` is defined differently in the importing and the exporting unit' % (what, n))
+            todo |= set(re.findall(r'\b[a-z_]\w*\b', imp_defs[n]))
+    return problems
+
+
 def check_imports(template_path, all_units):
     """-> list of problems (strings)"""
     problems = []
@@ -94,6 +132,8 @@ def check_imports(template_path, all_units):
         for c in ereq:
             if c not in sreq:
                 problems.append('import %s :: %s: exporter requires `%s` which the importer does not' % (unit, label, c))
+        problems += compare_spec_fns(sens + sreq, spec_defs(open(template_path).read()), spec_defs(open(all_units[unit]['path']).read()),
+                                     'import %s :: %s' % (unit, label))
     return problems
 
 
